@@ -308,6 +308,7 @@ PROPS = {
     },
     "C16": {
         "harness": [{"cmd": "c16", "n": {"quick": 600, "thorough": 20000}, "extra": ["-per", "75"]}],
+        "race": {"cmd": "c16", "n": {"quick": 200, "thorough": 3000}},
         "rule": "a random ORF (ATG, 4-13 sense codons, stop) embedded, exactly or mutated (5% / 12% of the bases, 25% of "
                 "the mutated copies with a one-base or one-codon deletion), in random flanks of 0-12 bases, 1-5 sequences, "
                 "a third reverse-complemented when both strands are searched; 75%: Phase with no / one / two reference "
@@ -335,7 +336,7 @@ PROPS = {
                 "seqboot (1-3 replicates, fraction 1, 1/2, 3/4, with or without -S) twice, the files compared with each "
                 "other and with the model's prediction from the raw tape of the seed and the FASTA writer model; 20%: a "
                 "chain of 2-5 reformat commands through fasta / phylip / nexus / clustal back to the starting format, "
-                "final bytes against the starting file; 17%: reformat phylip (four layouts), fasta, nexus and clustal, stdout predicted by the writer models; 8%: build distboot against build seqboot + compute distance "
+                "final bytes against the starting file; 8%: phase / phasent / orf on 25-64 sequences with --threads 1 against 4/8/16 (output file, log and stdout); 15%: reformat phylip (four layouts), fasta, nexus and clustal, stdout predicted by the writer models; 8%: build distboot against build seqboot + compute distance "
                 "on every replicate, 7 models; non-trivial = every case; distinct = distinct (command, seed, alignment)",
         "nontrivial": lambda m: True,
         "assumptions": [
@@ -347,6 +348,7 @@ PROPS = {
     },
     "C08": {
         "harness": [{"cmd": "c08", "n": {"quick": 600, "thorough": 20000}, "extra": ["-per", "100"]}],
+        "race": {"cmd": "c08", "n": {"quick": 200, "thorough": 3000}},
         "rule": "the alignments and option sets of C07, each followed by one relation between two real calls of "
                 "dna.DistMatrix: column permutation (SelectSites-like re-ordering with the weights), replication of "
                 "every column 2-3 times, integer weight k instead, explicit unit weights (bit-identical), reverse "
